@@ -345,6 +345,29 @@ def run_check(pid, tier, seed, only_key=None):
                     vs.append(v)
             if isinstance(stats, dict):
                 stats['witnesses'] = {'run': mine, 'wall_s': round(time.time() - tw, 1), 'results': wsamples}
+    # thorough tier: the checker itself is validated for this property against the committed corpus
+    # (selftest/mutants, seeded/, selftest/benign) in scratch worktrees; the outcome is evidence about the
+    # checker, not about /repo, and never turns into a VIOLATION line
+    validation = None
+    if tier == 'thorough' and not os.environ.get('VERIF_NO_SELFTEST') and cli.REPO == '/repo':
+        try:
+            sys.path.insert(0, HERE)
+            import selftest as st_mod
+            tv = time.time()
+            rows, okv = st_mod.validate([pid], verbose=False)
+            validation = {
+                'expectations': len(rows),
+                'mutants_and_seeds_caught': sum(1 for r in rows if r['verdict'] == 'fires'),
+                'mutants_and_seeds_missed': [r['patch'] for r in rows if r['verdict'] == 'MISSED'],
+                'benign_silent': sum(1 for r in rows if r['verdict'] == 'silent'),
+                'benign_false_alarms': [r['patch'] for r in rows if r['verdict'] == 'FALSE-ALARM'],
+                'wall_s': round(time.time() - tv, 1),
+            }
+            print('CHECKER-VALIDATION property=%s caught=%d missed=%d benign_silent=%d false_alarms=%d'
+                  % (pid, validation['mutants_and_seeds_caught'], len(validation['mutants_and_seeds_missed']),
+                     validation['benign_silent'], len(validation['benign_false_alarms'])))
+        except Exception as e:   # the validation corpus must never break the check of /repo
+            validation = {'error': '%s: %s' % (type(e).__name__, e)}
     # de-duplicate across configurations by key
     seen = {}
     for v in vs:
@@ -386,6 +409,7 @@ def run_check(pid, tier, seed, only_key=None):
         'exhaustive': True,
         'rule': 'every obligation generated by the abstract interpretation of every analysis root in every '
                 'listed build configuration; an obligation is distinct by (rule, root, inline chain, primitive)',
+        'checker_validation': validation,
         'explanation': manifest_text.TEXT.get(pid, {}).get('level') or 'see MANIFEST.json level_claimed',
     }
     ev = {
